@@ -758,6 +758,42 @@ func (x *Exec) stub(st *State, f *Frame, in *ssa.Call, fn *ssa.Function, name st
 		// a single call is executed sequentially: locking has no effect on its result (writes to shared state are still recorded)
 		x.ret(f, in, nil)
 		return true
+	case "(*sync.Pool).Get", "(*sync.Pool).Put":
+		// a pool is shared mutable state of the process: recorded as a store into a global (C16), modelled as always empty
+		pp := args[0].(P)
+		at, fnm := x.curPos(st)
+		lbl := "sync.Pool"
+		if pp.obj != 0 {
+			lbl = x.obj(st, pp.obj).label + " (sync.Pool)"
+		}
+		st.writes = append(st.writes, WriteRec{Obj: pp.obj, Label: lbl, Tag: "Global", Off: 0, At: at, Fn: fnm + " (shared pool)"})
+		if name == "(*sync.Pool).Put" {
+			x.ret(f, in, nil)
+			return true
+		}
+		// Get: New() if set, else nil
+		po := x.obj(st, pp.obj)
+		var newf Val
+		for _, s := range po.slots[pp.off:] {
+			if fv, ok := s.(F); ok && fv.fn != nil {
+				newf = fv
+			}
+		}
+		if newf == nil {
+			x.ret(f, in, I{})
+			return true
+		}
+		if fn2, ok := newf.(F).fn.(*ssa.Function); ok {
+			x.pushFrame(st, fn2, newf.(F).bind, in)
+			if len(fn2.FreeVars) > 0 {
+				nf := st.frames[len(st.frames)-1]
+				for i, fv := range fn2.FreeVars {
+					nf.loc[fv] = newf.(F).bind[i]
+				}
+			}
+			return true
+		}
+		x.fail("sync.Pool.New of unsupported kind")
 	case "(*sync.Mutex).TryLock":
 		x.ret(f, in, W{d.Bool(true)})
 		return true
